@@ -100,6 +100,18 @@ def make_ops(model: Model):
                 out.append(("ValueError", unparse(n)))
             elif d == "len" and n.args and K(n.args[0]) == "RAW" and not _type_checked(f, n, n.args[0]):
                 out.append(("TypeError", unparse(n)))
+            elif isinstance(n.func, ast.Attribute) and n.func.attr == "seek" and len(n.args) >= 1 and K(n.args[0]) in ("NUM", "RAW") and not _nonneg_checked(f, n, n.args[0]):
+                # file.seek(negative) raises ValueError
+                out.append(("ValueError", unparse(n)))
+            elif short == "CBC" and n.args and not _len_checked(f, n, n.args[0]) and not _source_len_checked(f, n, n.args[0]):
+                # cryptography: CBC(iv) demands a 16-byte IV; a payload shorter than that gives a short slice
+                out.append(("ValueError", unparse(n)))
+            elif isinstance(n.func, ast.Attribute) and n.func.attr == "finalize" and not n.args:
+                # cryptography: decryptor.finalize() raises ValueError when the data is not a whole number of blocks
+                out.append(("ValueError", unparse(n)))
+            elif d == "self.pop" and f.cls is not None and f.cls.name == "PDFPageInterpreter" and n.args and K(n.args[0]) == "RAW" and not _type_checked(f, n, n.args[0]) and not _int_member_checked(f, n, n.args[0]):
+                # pop(n) slices the operand stack with n
+                out.append(("TypeError", unparse(n)))
             # method call on a value of unchecked type
             if isinstance(n.func, ast.Attribute) and K(n.func.value) == "RAW" and not _type_checked(f, n, n.func.value):
                 out.append(("AttributeError", unparse(n)))
@@ -373,6 +385,73 @@ def _key_checked(f: FuncInfo, node: ast.AST, cont: ast.AST, key: ast.AST) -> boo
     return False
 
 
+def _nonneg_checked(f: FuncInfo, node: ast.AST, val: ast.AST) -> bool:
+    """`val` (or the name at its root) is compared with 0 in a test that governs node or in an earlier exit."""
+    root = val
+    names = {x.id for x in ast.walk(val) if isinstance(x, ast.Name)}
+
+    def has(t: ast.AST) -> bool:
+        for c in [t] + list(ast.walk(t)):
+            if isinstance(c, ast.Compare) and len(c.ops) == 1 and isinstance(c.ops[0], (ast.Lt, ast.LtE, ast.Gt, ast.GtE)):
+                sides = [c.left, c.comparators[0]]
+                if any(isinstance(s_, ast.Name) and s_.id in names for s_ in sides) and any(isinstance(s_, ast.Constant) and s_.value == 0 for s_ in sides):
+                    return True
+        return False
+
+    if any(has(t) for (t, pol) in _guard_tests(f, node)) or any(has(t) for t in _prior_exits(f, node)):
+        return True
+
+    # every definition of the document-derived names is clamped: x = max(0, ...), x = <non-negative constant>, x += ...
+    def clamped(name: str) -> bool:
+        defs = [a for a in walk_no_nested(f.node) if isinstance(a, ast.Assign) and any(isinstance(t, ast.Name) and t.id == name for t in a.targets)]
+        if not defs:
+            return False
+        for a in defs:
+            v = a.value
+            if isinstance(v, ast.Constant) and isinstance(v.value, int) and v.value >= 0:
+                continue
+            if isinstance(v, ast.Call) and (dotted(v.func) or "") == "max" and any(isinstance(x, ast.Constant) and x.value == 0 for x in v.args):
+                continue
+            return False
+        return True
+
+    from ..doctaint import DocTaint as _DT
+
+    kinds = _DT(f).vars
+    doc_names = [n_ for n_ in names if kinds.get(n_) in ("NUM", "RAW")]
+    return bool(doc_names) and all(clamped(n_) for n_ in doc_names)
+
+
+def _source_len_checked(f: FuncInfo, node: ast.AST, val: ast.AST) -> bool:
+    """val is a slice of a buffer whose length was checked (len(data) < 16 -> exit)."""
+    if not isinstance(val, ast.Name):
+        return False
+    for a in walk_no_nested(f.node):
+        if isinstance(a, ast.Assign) and any(isinstance(t, ast.Name) and t.id == val.id for t in a.targets) and isinstance(a.value, ast.Subscript):
+            return _len_checked(f, node, a.value.value)
+    return False
+
+
+def _int_member_checked(f: FuncInfo, node: ast.AST, val: ast.AST) -> bool:
+    """`val in (1, 3, 4)`: membership in a literal tuple of ints governs node (IfExp test, guard or earlier exit)."""
+    txt = unparse(val)
+
+    def has(t: ast.AST) -> bool:
+        for c in [t] + list(ast.walk(t)):
+            if isinstance(c, ast.Compare) and len(c.ops) == 1 and isinstance(c.ops[0], ast.In) and unparse(c.left) == txt and isinstance(c.comparators[0], (ast.Tuple, ast.List, ast.Set)) and all(isinstance(e, ast.Constant) and isinstance(e.value, int) for e in c.comparators[0].elts):
+                return True
+        return False
+
+    if any(pol and has(t) for (t, pol) in _guard_tests(f, node)):
+        return True
+    st = _stmt_of(f, node)
+    scope = st if st is not None else f.node
+    for n in [scope] + list(walk_no_nested(scope)):
+        if isinstance(n, ast.IfExp) and any(x is node for x in ast.walk(n.body)) and has(n.test):
+            return True
+    return False
+
+
 def _truthy_container(f: FuncInfo, node: ast.AST, val: ast.AST) -> bool:
     """A truthiness test does not make a value a container (5 is truthy): no narrowing."""
     return False
@@ -424,6 +503,10 @@ S(_P + "lzw.LZWDecoder.feed", "bytes((c,))", "c ranges over range(256)")
 S(_P + "jbig2.JBIG2StreamWriter.encode_data_length", "pack('>L', value)", "value is the segment's data_length as read by unpack('>L') (or the constant 0 of the end-of-page/end-of-file segments): it fits")
 S(_P + "jbig2.JBIG2StreamWriter.encode_flags", "pack('>B', flags)", "flags is 0x80 | 0x40 | (type & 0x3F): below 256")
 S(_P + "jbig2.JBIG2StreamWriter.encode_retention_flags", "pack(flags_format, *flags)", "the format is built entry by entry with the list; each byte is an OR of at most 8 single bits plus the 3-bit count, the dword is the constant 0xE0000000, and each referred-to number was read with the same width it is written with")
+S(_P + "pdfdocument.PDFDocument.read_xref_from", "parser.seek(pos)", "at this statement pos is the position nexttoken() just returned (non-negative); the later rebinding of pos to /XRefStm and /Prev values only flows into the recursive call, whose first statement rejects negative offsets")
+S(_P + "pdfdocument.PDFStandardSecurityHandlerV5._aes_cbc_encrypt", "modes.CBC(iv)", "iv is k[16:32] of a SHA digest of at least 32 bytes (R6 hash, ISO 32000-2 algorithm 2.B)")
+S(_P + "pdfdocument.PDFStandardSecurityHandlerV5._aes_cbc_encrypt", "encryptor.finalize()", "the data is (password + k + u) repeated 64 times: a multiple of 64 bytes, hence of the block size")
+S(_P + "pdfdocument.PDFStandardSecurityHandlerV5.authenticate", "modes.CBC(b'\\x00' * 16)", "a 16-byte constant")
 S(_P + "arcfour.Arcfour.process", "bytes((c ^ k,))", "c is a byte of the data and k an element of the permutation of 0..255 held in s: the xor is below 256")
 S(_P + "pdfdocument.PDFStandardSecurityHandler.authenticate_owner_password", "bytes((c ^ i,))", "c is a byte of an MD5 digest and i ranges over range(19, -1, -1): the xor is below 256")
 S(_P + "pdfdocument.PDFStandardSecurityHandler.compute_u", "bytes((c ^ i,))", "c is a byte of the key and i ranges over range(1, 20): the xor is below 256")
